@@ -46,6 +46,8 @@ Next == \/ ACreateR \/ AUnsched \/ ASchedule \/ ADeleteR
 Spec == Init /\ [][Next]_vars
 
 StepOK == [][StepProp]_vars
+\* `step` only labels the last transition (StepProp reads step'): states are identified without it
+View == <<cfg, now, nodes, rs, pods, rgen, pgen, used, termAt, armed, quiet>>
 
 TypeOK == /\ now \in 0..MaxNow /\ nodes \subseteq Nodes
           /\ \A r \in RNames : rs[r].exists => /\ rs[r].phase \in {"Pending", "Available", "Succeeded", "Failed"}
